@@ -242,6 +242,28 @@ def match_finding(prop, facts, findings=None):
 # ----------------------------------------------------------------------------
 # verdicts and evidence
 # ----------------------------------------------------------------------------
+class RealCodeTimeout(Exception):
+  """the implementation did not come back within the time limit (reported as a violation, never waited for)"""
+
+
+import contextlib
+
+
+@contextlib.contextmanager
+def time_limit(seconds):
+  import signal
+
+  def _alarm(signum, frame):
+    raise RealCodeTimeout(f'no answer within {seconds} s')
+  old = signal.signal(signal.SIGALRM, _alarm)
+  signal.alarm(seconds)
+  try:
+    yield
+  finally:
+    signal.alarm(0)
+    signal.signal(signal.SIGALRM, old)
+
+
 class Outcome:
   """Collected by a property check; turned into exit code + evidence by finish()."""
 
